@@ -87,7 +87,7 @@ impl<'g> Args<'g> {
         ((hi as u64) << 32) | lo as u64
     }
     pub fn string(&mut self) -> String {
-        let s = format!("s{}{}", self.fresh(), self.rng.pick(&["", "x", "\u{e9}", "quo\"te"]));
+        let s = format!("s{}{}", self.fresh(), self.rng.pick(&["", "x", "\u{e9}", "quo\"te", "gr\u{f6}\u{df}e_\u{fc}bergabe_pr\u{fc}fen", "\u{65e5}\u{672c}\u{8a9e}\u{65e5}\u{672c}\u{8a9e}", "\u{e9}\u{e9}"]));
         self.flat.push(json!({"s": jbytes(s.as_bytes())}));
         s
     }
